@@ -409,11 +409,9 @@ impl LineSplitter {
             }
         }
 
-        // Add the last field
-        if start < line.len() {
-            if let Ok(field) = std::str::from_utf8(&line.as_bytes()[start..]) {
-                self.buffer.push(field.to_string());
-            }
+        // Add the last field (possibly empty, like str::split)
+        if let Ok(field) = std::str::from_utf8(&line.as_bytes()[start..]) {
+            self.buffer.push(field.to_string());
         }
     }
 }
